@@ -8,7 +8,8 @@
     the text/template half of the generator, so C01_full_statement is a per-case
     decision; what is proved for all inputs are properties of the identifier
     derivation the templates rely on (partial). *)
-From Verif Require Import Model.GoNames Spec.GoPkgWf.
+From Coq Require Import Sorting.Sorted.
+From Verif Require Import Model.GoNames Model.GoStruct Spec.GoPkgWf Proofs.GoStructFacts.
 Open Scope string_scope.
 Open Scope list_scope.
 
@@ -36,5 +37,26 @@ Proof. exists "a_b", "a__b". split; [discriminate|vm_compute; reflexivity]. Qed.
 (** pkg_wf rejects the classic :one redeclaration *)
 Example C01_pkg_wf_redeclared :
   pkg_wf [mkGF "query.sql.go" ["context"] ["context"] ["getOne"] []
-            [mkGM "Queries" "GetOne" "q" ["ctx"; "id"] ["row"; "id"; "err"] []]] = 5%N.
+            [mkGM "Queries" "GetOne" "q" ["ctx"; "id"] ["row"; "id"; "err"] [] []]] = 5%N.
+Proof. vm_compute. reflexivity. Qed.
+
+(** ... and the :many loop whose single result column is called like the
+    slice it is appended to (`var items T` inside the loop hides `var items []T`) *)
+Example C01_pkg_wf_inner_shadow :
+  pkg_wf [mkGF "query.sql.go" ["context"] ["context"] ["list"] []
+            [mkGM "Queries" "List" "q" ["ctx"] ["rows"; "err"; "items"] [] ["items"]]] = 7%N.
+Proof. vm_compute. reflexivity. Qed.
+
+(** Field names of a *Row / *Params struct (result.go columnsToStruct,
+    Model/GoStruct.v, compared with the emitted struct tags on every case of the
+    C02 check): columns that share a name receive strictly increasing suffixes,
+    hence pairwise different field names, whenever their ids differ (result
+    columns: positions; parameters: distinct numbers). *)
+Theorem C01_suffixes_increase_partial : forall cols nm,
+  NoDup (map fst cols) -> StronglySorted lt (named nm cols (suffixes_of cols)).
+Proof. exact same_name_suffixes_increase. Qed.
+Print Assumptions C01_suffixes_increase_partial.
+
+Example C01_row_tags_example :
+  row_tags ["id"; "id"; "name"; ""; "id"] = ["id"; "id_2"; "name"; "column_4"; "id_3"].
 Proof. vm_compute. reflexivity. Qed.
